@@ -8,7 +8,7 @@ R5 liveness of ancestors: captured span traces hold a counted handle
 """
 from rulekit import Facts, where
 from rulekit.sym import PathEval, show
-from rulekit.query import field_users
+from rulekit.query import field_users, guards_of
 
 ST = "tracing_subscriber::registry::stack::SpanStack"
 REG = "tracing_subscriber::registry::sharded::Registry"
@@ -32,7 +32,7 @@ def run(ck):
         "Scope::next follows the stored parent link; from_root is collect+rev; SpanTrace::capture stores Span::current(). "
         "Decides these shapes, not that they compute the right answer for every interleaved history.")
     ck.assumptions += ["thread_local::ThreadLocal gives one cell per thread", "re-entering an already entered span is excluded by the property"]
-    ck.rule("C06.R1", "span stack is per-thread and touched only through push/pop from enter/exit", floor=4)
+    ck.rule("C06.R1", "span stack is per-thread and touched only through push/pop from enter/exit, unconditionally", floor=6)
     ck.rule("C06.R2", "push/pop/iter/current stack discipline", floor=6)
     ck.rule("C06.R3", "parent resolution table (root / contextual / explicit), siblings agree", floor=4)
     ck.rule("C06.R4", "scope walk follows parent links; from_root reverses", floor=3)
@@ -42,6 +42,9 @@ def run(ck):
     r3(ck, F)
     r4(ck, F)
     r5(ck, F)
+
+
+ALWAYS_CALLS = {"map", "and_then", "map_or", "map_or_else", "for_each", "get_default", "inspect"}
 
 
 def r1(ck, F):
@@ -63,11 +66,54 @@ def r1(ck, F):
     else:
         ck.bad("C06.R1", "SpanStack.stack mutated only by push/pop", str(sorted(writers ^ want)), "mutators: %s" % sorted(writers))
     for m, caller in (("push", REG_C + "enter"), ("pop", REG_C + "exit")):
-        callers = {x.path for x, bb, t in F.callers().get(ST + "::" + m, [])}
-        if callers == {caller}:
-            ck.ok("C06.R1", "SpanStack::%s called only from Registry::%s" % (m, caller.rsplit("::", 1)[1]))
+        sites = F.callers().get(ST + "::" + m, [])
+        roots = {x.path.split("::{closure")[0] for x, bb, t in sites}
+        short = caller.rsplit("::", 1)[1]
+        if roots == {caller}:
+            ck.ok("C06.R1", "SpanStack::%s called only from Registry::%s" % (m, short))
         else:
-            ck.bad("C06.R1", "SpanStack::%s called only from Registry::%s" % (m, caller.rsplit("::", 1)[1]), str(sorted(callers)), "callers: %s" % sorted(callers))
+            ck.bad("C06.R1", "SpanStack::%s called only from Registry::%s" % (m, short), str(sorted(roots)), "callers: %s" % sorted(roots))
+            continue
+        # ... and unconditionally: enter always pushes; exit pops whenever this thread has a stack at all. A push/pop that
+        # can be skipped (e.g. moved into a closure that a dispatcher accessor may decline to run) leaves the stack
+        # out of step with the thread's enter/exit history.
+        key = "Registry::%s always reaches SpanStack::%s" % (short, m)
+        problems = []
+        if len(sites) != 1:
+            problems.append("%d call sites" % len(sites))
+        else:
+            x, bb, t = sites[0]
+            outer = F.body(caller)
+            at_body, at_bb = x, bb
+            hops = 0
+            while at_body is not outer and hops < 3:
+                hops += 1
+                parent = F.body(at_body.path.rsplit("::{closure", 1)[0])
+                handed = None
+                for pbb, pt in parent.calls():
+                    for a in pt["argv"]:
+                        o = parent.origin(a)
+                        cd = o[1].get("agg", {}).get("closure") if o[0] == "agg" else (o[1].get("closure") if o[0] == "const" else None)
+                        if cd == at_body.path:
+                            handed = (pbb, pt)
+                if handed is None:
+                    problems.append("cannot find where the closure containing the %s is invoked" % m)
+                    break
+                cal = handed[1]["callee"]
+                if not (cal.get("method") in ALWAYS_CALLS and (cal.get("path", "").startswith("core::option::Option") or cal.get("path", "").startswith("core::iter")
+                                                              or cal.get("path") == "tracing_core::dispatch::get_default")):
+                    problems.append("the %s runs inside a closure handed to %s, which may decline to run it" % (m, cal.get("path")))
+                    break
+                at_body, at_bb = parent, handed[0]
+            if not problems:
+                g, _ = guards_of(at_body, at_bb)
+                extra = [(c, v) for c, v in g if not ("current_spans" in c and ("get(" in c or "get_or_default(" in c))]
+                if extra:
+                    problems.append("the %s is additionally guarded by %s" % (m, sorted(extra)[:3]))
+        if problems:
+            ck.bad("C06.R1", key, where(F.body(caller).raw["sp"]), "; ".join(problems), fn=caller)
+        else:
+            ck.ok("C06.R1", key, fn=caller)
 
 
 def one_table(F, path):
